@@ -5,7 +5,7 @@ PROP = {
     "bin": "c06",
     "coq_targets": ["theories/Lift/C06Check"],
     "n": {"quick": int(_os.environ.get("C06_N", "640")), "thorough": 16000},   # C06_N: smaller runs for sensitivity experiments
-    "theorems": ["lang_bisim_sound", "bisim_from_sound", "lang_prefix_closed", "lang_eq_feasible", "lang_bisim_exec", "lang_bisim_exec_sem", "recover_names_ok", "lang_eq_exec_sem", "sem_pexec_link", "recover_once", "recover_struct_once", "merge_flang", "recover_full_lang", "recover_graph_spec", "recover_entry_block", "recover_lang_partial", "lang_eq_exec_sem_lang", "recover_executes_like_machine_code"],
+    "theorems": ["lang_bisim_sound", "bisim_from_sound", "lang_prefix_closed", "lang_eq_feasible", "lang_bisim_exec", "lang_bisim_exec_sem", "recover_names_ok", "lang_eq_exec_sem", "sem_pexec_link", "recover_once", "recover_struct_once", "merge_flang", "recover_full_lang", "recover_graph_spec", "recover_entry_block", "recover_lang_partial", "lang_eq_exec_sem_lang", "recover_executes_like_machine_code", "recover_graph_spec_m", "recover_lang_m", "recover_executes_like_machine_code_m"],
     "rule": "11 + 10 hand-written regression programs, then random machine-code programs, one xoshiro256** stream per (seed,index): "
             "toy fixed-width ISA (add / three-block conditional add / jmp / jcc with both successor orders / halt / indirect jump) of "
             "1-70 instructions (60% 17-40) at every alignment of the base modulo 64, control-transfer density 3/8/20/40%, "
@@ -21,8 +21,10 @@ PROP = {
     "assumptions": ["a manual edge (h, t) leaves the basic block that starts at h (last instruction of the straight-line run from h)",
                     "a requested manual edge replaces the successor edge with the same head and tail; successors of one instruction "
                     "that share a target are one edge guarded by the disjunction of their guards"],
-    "partial": ["the model theorems recover_graph_spec / recover_lang_partial / recover_executes_like_machine_code are for programs without "
-                "manual edges; with manual edges only recover_struct_once, recover_once, recover_names_ok, recover_full_lang are proved",
+    "partial": ["with manual edges the model theorems (recover_graph_spec_m, recover_lang_m, recover_executes_like_machine_code_m) need man_fit: "
+                "every manual head's block translation ends at the end of the head's straight-line run (outside the known-finding class)",
+                "det / sem_wf of the merged function and of the reference are hypotheses of the end-to-end theorems (evaluated per case), "
+                "not derived from prog_ok",
                 "that C06Check.gprog satisfies rspec (and layout-order independence of the language) is not proved: per case the "
                 "validator compares against gprog",
                 "tb_spec of the block translators (incl. the harness's toy translator) is a tested fact (tb_check per recorded block)"],
@@ -30,6 +32,6 @@ PROP = {
                   "the reference graph assembled (in Coq) from the program read one instruction at a time: language bisimulation "
                   "(lang_bisim, proved sound for all graphs), multiset of (address, operation) items, entry/edge/exit naming, and equal "
                   "runs of the reference IL semantics from random states.",
-    "level_note": "[U] soundness of the checker, lang_eq_exec for Exec/Sem.v, end-to-end theorem for the model incl. merge under tb_spec (no manual edges); "
+    "level_note": "[U] soundness of the checker, lang_eq_exec for Exec/Sem.v, end-to-end theorems for the model incl. merge under tb_spec (with manual edges under man_fit); "
                   "[V] the property itself per generated program; exact tie of the model incl. merge; [D] executor::Driver vs toy interpreter.",
 }
